@@ -12,8 +12,13 @@
      mithril-client/src/message.rs   compute_cardano_{transactions_proofs,blocks_proofs,transactions_proofs_v2,stake_distribution}_message
      mithril-common/src/messages/certificate.rs   CertificateMessage::match_message
 
-   The Merkle side (MKProof / MKMapProof verification, contains, roots) is C09's model; the
-   protocol message and its hash are C04's model.  Leaf encodings are REAL byte strings. *)
+   The Merkle side (MKProof / MKMapProof verification, contains, roots) is C09's model, in its
+   BYTE-FAITHFUL form (C09/RawLeaf.v: [map_verify_b], [map_contains_b], [norm]): leaves are pushed
+   raw and `MKTreeNode + MKTreeNode` hashes the plain concatenation, so two raw sibling leaves are
+   committed only through their concatenation (known findings C09-raw-leaf-boundary and
+   C11-raw-leaf-boundary).  A Merkle root as the client sees it (a hex string of bytes) is the
+   [norm] of the root term.  The protocol message and its hash are C04's model.  Leaf encodings
+   are REAL byte strings. *)
 From Coq Require Import String Ascii.
 From MV Require Import Base.Prelude Base.SymHash Gen.Consts.
 From MV Require C04.Model.
@@ -77,7 +82,11 @@ Definition sd_leaf (e : bytes * N) : bytes := fst e ++ dec (snd e).
 (* CardanoTransactionsSetProof::verify / MkSetProof::verify:
      proof.verify()?; for item { proof.contains(&leaf(item))? }                                  *)
 Definition set_verify (leaves : list bytes) (p : mapproof) : bool :=
-  map_verify p && forallb (fun l => map_contains p (BLit l)) leaves.
+  map_verify_b p && forallb (fun l => map_contains_b p (BLit l)) leaves.
+
+(* merkle_root(): the hex text of the root BYTES; two root terms with the same bytes are the
+   same string, hence [norm] *)
+Definition root_bytes (p : mapproof) : bt := norm (map_root p).
 
 (* what `verify` returns: root, reported items, latest block number, offset (v2 only) *)
 Record verified := { v_root : bt; v_items : list item; v_lbn : N; v_off : option N }.
@@ -96,8 +105,8 @@ Fixpoint lverify_loop (ps : list lpart) (root : option bt) : result (option bt) 
       | Some pr =>
           if set_verify (lp_hashes p) pr then
             match root with
-            | None => lverify_loop r (Some (map_root pr))
-            | Some r0 => if bt_eqb r0 (map_root pr) then lverify_loop r root else Err
+            | None => lverify_loop r (Some (root_bytes pr))
+            | Some r0 => if bt_eqb r0 (root_bytes pr) then lverify_loop r root else Err
             end
           else Err
       end
@@ -122,7 +131,7 @@ Definition v2verify (m : v2msg) : result verified :=
   | Some (_, None) => Err                            (* MalformedData *)
   | Some (items, Some pr) =>
       if set_verify (map leaf items) pr then
-        Ok {| v_root := map_root pr; v_items := items; v_lbn := v2_lbn m; v_off := Some (v2_off m) |}
+        Ok {| v_root := root_bytes pr; v_items := items; v_lbn := v2_lbn m; v_off := Some (v2_off m) |}
       else Err
   end.
 
@@ -185,9 +194,11 @@ Definition signed_sd (root : bt) (epoch : N) : pmsg :=
 Definition sd_leaves (d : sdist) : list bt := map (fun e => BLit (sd_leaf e)) d.
 (* compute_merkle_tree_from_stake_distribution + compute_root (fails on an empty tree) *)
 Definition sd_root (d : sdist) : option bt := mmr_root (sd_leaves d).
+(* the root bytes (what to_hex() prints and the signers sign) *)
+Definition sd_root_b (d : sdist) : option bt := option_map norm (sd_root d).
 (* compute_cardano_stake_distribution_message *)
 Definition fill_sd (certpm : pmsg) (d : sdist) (epoch : N) : result pmsg :=
-  match sd_root d with
+  match sd_root_b d with
   | Some r => Ok (pm_set (pm_set certpm K_SD_EPOCH (dlit epoch)) K_SD_ROOT (BHex r))
   | None => Err
   end.
@@ -196,7 +207,7 @@ Definition fill_sd (certpm : pmsg) (d : sdist) (epoch : N) : result pmsg :=
 (* values of protocol-message parts in a case: literal text, or the hex of a named digest *)
 Inductive pvspec := PVLit (b : bytes) | PVHex (m : mspec).
 Definition pvden (f : forest) (v : pvspec) : bt :=
-  match v with PVLit b => BLit b | PVHex m => BHex (mden f m) end.
+  match v with PVLit b => BLit b | PVHex m => BHex (norm (mden f m)) end.
 Definition pmden (f : forest) (l : list (string * pvspec)) : pmsg :=
   fold_left (fun m kv => pm_set m (K (fst kv)) (pvden f (snd kv))) l [].
 
@@ -254,7 +265,7 @@ Definition run_v2 (ranges foreign : list (N * N * list item)) (part : option (li
    pattern of the roots (signed first). *)
 Definition ojunk (k : N) : bt := BHex (BLit [k]).
 Definition run_sd (signed : sdist) (sepoch : N) (reports : list (sdist * N)) : obs :=
-  let sroot := match sd_root signed with Some r => r | None => ojunk 0 end in
+  let sroot := match sd_root_b signed with Some r => r | None => ojunk 0 end in
   let smsg := pm_hash (signed_sd sroot sepoch) in
   let cert := signed_sd sroot sepoch in
   OL [OL (map (fun r => OL (map (fun e => obytes (sd_leaf e)) (fst r))) reports);
@@ -262,4 +273,4 @@ Definition run_sd (signed : sdist) (sepoch : N) (reports : list (sdist * N)) : o
                         | Ok m => OL [OZ 0; OB (match_message smsg m)]
                         | _ => OL [OZ 1]
                         end) reports);
-      OLN (eq_pattern (sroot :: map (fun r => match sd_root (fst r) with Some x => x | None => ojunk 1 end) reports))].
+      OLN (eq_pattern (sroot :: map (fun r => match sd_root_b (fst r) with Some x => x | None => ojunk 1 end) reports))].
